@@ -86,6 +86,8 @@ pub struct AppLog {
     pub handler_reads: BTreeMap<u64, u64>,
     /// why the hang detector fired
     pub hang_reason: String,
+    /// per-packet authentication failures reported by the receivers (snapshot at the end of the run)
+    pub rejects: trace::Rejects,
 }
 
 #[derive(Clone, Debug, Default, Serialize)]
@@ -121,6 +123,8 @@ pub struct RunOut {
     pub panic: Option<String>,
     /// (buffers overrun, size of the last one, bytes past its end) from the guarded allocator
     pub heap_overruns: (u64, usize, usize),
+    /// the link stopped recording datagrams (memory bound of pathological runs)
+    pub log_truncated: bool,
 }
 
 fn now_ns() -> u64 {
@@ -764,6 +768,7 @@ pub fn execute(plan: &Plan) -> RunOut {
                     end.server_handshake_requests = s.server_hs_requests.load(Ordering::Relaxed);
                     let mut app_snapshot = ctx.app.lock().unwrap().clone();
                     app_snapshot.over_budget = over_budget;
+                    app_snapshot.rejects = trace::take_rejects();
                     app_snapshot.hang_reason = hang_reason;
                     *result.lock().unwrap() = (end, now_ns(), capped, extended, counters, trace::take(), app_snapshot);
                 }
@@ -816,5 +821,6 @@ pub fn execute(plan: &Plan) -> RunOut {
         cap_extended,
         panic,
         heap_overruns: crate::guard::take(),
+        log_truncated: l.log_truncated,
     }
 }
